@@ -355,3 +355,69 @@ Proof.
   exists p. split; [reflexivity|].
   exact (Frag3Glue.frag3_compile_correct_lemma prog12 p (proj1 (proj2 progs_in_frag3)) E).
 Qed.
+
+(* ---- the fragment F4: arithmetic and unary minus with the coercion of numeric strings ---- *)
+From GL Require Import CC.Frag4Sem.
+From GL Require CC.CompFactsVM4 CC.Frag4Facts CC.Frag4Eval CC.Frag4Glue.
+Definition str_10 : bytes := [49; 48]. Definition str_2 : bytes := [50].
+
+(* local s, t = "10", "x"; local n = s + 1; local m = -s * "2"; return n, m, s, G0     (11, -20, "10", nil) *)
+Definition prog14 : list stmt :=
+  [SLocal 1 [vs; vt] [EStr str_10; EStr str_x];
+   SLocal 2 [vn] [EBin OAdd (EVar vs) (ENum 1)];
+   SLocal 3 [va] [EBin OMul (EUn ONeg (EVar vs)) (EStr str_2)];
+   SReturn 4 [EVar vn; EVar va; EVar vs; EVar gG0]].
+
+(* local s, t = "10", "x"; s = s + t     (a string that is no numeral: the arithmetic error of line 2) *)
+Definition prog15 : list stmt :=
+  [SLocal 1 [vs; vt] [EStr str_10; EStr str_x]; SAssign 2 [EVar vs] [EBin OAdd (EVar vs) (EVar vt)];
+   SReturn 3 [EVar vs]].
+
+(* local t = "x"; return -t     (unary minus on a string that is no numeral) *)
+Definition prog16 : list stmt := [SLocal 1 [vt] [EStr str_x]; SReturn 2 [EUn ONeg (EVar vt)]].
+
+Example progs_in_frag4 :
+  in_frag4 prog14 = true /\ in_frag4 prog15 = true /\ in_frag4 prog16 = true /\
+  in_frag3 prog14 = false /\ in_frag3 prog15 = false /\ in_frag3 prog16 = false /\
+  in_frag4 prog10 = true /\ in_frag4 prog8 = true /\ in_frag4 prog11 = true /\ in_frag4 prog5 = true /\ in_frag4 prog1 = true /\
+  tie_frag prog14 = true /\ tie_frag prog15 = true /\ tie_frag prog16 = true.
+Proof. vm_compute. repeat split; reflexivity. Qed.
+
+Example progs4_compile : (exists p, compile_frag prog14 = Some p) /\ (exists p, compile_frag prog15 = Some p) /\
+                         (exists p, compile_frag prog16 = Some p).
+Proof. repeat split; eexists; vm_compute; reflexivity. Qed.
+
+Example prun4_values :
+  prun4 [] prog14 = CRet [VNum 11; VNum (-20); VStr str_10; VNil] /\ prun4 [] prog15 = CFault 2 /\ prun4 [] prog16 = CFault 2.
+Proof. vm_compute. repeat split; reflexivity. Qed.
+
+Example prog14_equation :
+  vm_outcome (compiled prog14) = outcome_of (run_program fuel no_devs prog14) /\
+  vm_outcome (compiled prog14) = Outcome [] (OOk [ONum 11; ONum (-20); OStr str_10; ONil]).
+Proof. vm_compute. split; reflexivity. Qed.
+
+Example prog15_equation :
+  vm_outcome (compiled prog15) = outcome_of (run_program fuel no_devs prog15) /\
+  vm_outcome (compiled prog15) = Outcome [] (OErr (OFault 2 2)).
+Proof. vm_compute. split; reflexivity. Qed.
+
+Example prog16_equation :
+  vm_outcome (compiled prog16) = outcome_of (run_program fuel no_devs prog16) /\
+  vm_outcome (compiled prog16) = Outcome [] (OErr (OFault 2 2)).
+Proof. vm_compute. split; reflexivity. Qed.
+
+Example isem4_is_prun4 :
+  isem4_code (fst (ucode prog14)) (snd (ucode prog14)) [] = prun4 [] prog14 /\
+  isem4_code (fst (ucode prog15)) (snd (ucode prog15)) [] = prun4 [] prog15 /\
+  isem4_code (fst (ucode prog16)) (snd (ucode prog16)) [] = prun4 [] prog16.
+Proof. vm_compute. repeat split; reflexivity. Qed.
+
+Example frag4_compile_correct_applies : exists p, compile_frag prog14 = Some p /\
+  exists n, forall fuel, (n <= fuel)%nat ->
+    is_skip (outcome_of (run_program fuel no_devs prog14)) = false ->
+    outcome_of_vfin (run_proto fuel p) = outcome_of (run_program fuel no_devs prog14).
+Proof.
+  destruct (compile_frag prog14) as [p|] eqn:E; [|vm_compute in E; discriminate].
+  exists p. split; [reflexivity|].
+  exact (Frag4Glue.frag4_compile_correct_lemma prog14 p (proj1 progs_in_frag4) E).
+Qed.
